@@ -11,13 +11,13 @@ from sa import frontend, ir
 FILE_CHECKS = {
     'cmdline/sync.c': ['C04', 'C05', 'C06', 'C07', 'C08', 'C13', 'C19', 'C01'],
     'cmdline/scrub.c': ['C04', 'C08', 'C15', 'C01'],
-    'cmdline/check.c': ['C01', 'C04', 'C05', 'C07', 'C08', 'C12', 'C18', 'C19'],
+    'cmdline/check.c': ['C01', 'C04', 'C05', 'C06', 'C07', 'C08', 'C12', 'C17', 'C18', 'C19'],
     'cmdline/scan.c': ['C11', 'C19', 'C05', 'C06', 'C07', 'C14', 'C18'],
     'cmdline/state.c': ['C09', 'C10', 'C16', 'C07', 'C14', 'C06', 'C17', 'C18'],
-    'cmdline/parity.c': ['C17', 'C05', 'C08'],
+    'cmdline/parity.c': ['C17', 'C05', 'C08', 'C11', 'C01'], 'cmdline/dry.c': ['C08'],
     'cmdline/handle.c': ['C01', 'C07', 'C08', 'C12'],
     'cmdline/io.c': ['C13', 'C08'],
-    'cmdline/elem.c': ['C18', 'C10', 'C06', 'C04', 'C05'],
+    'cmdline/elem.c': ['C18', 'C10', 'C06', 'C04', 'C05', 'C11'],
     'cmdline/stream.c': ['C09', 'C10', 'C08', 'C16'],
     'cmdline/status.c': ['C20'], 'cmdline/pool.c': ['C20', 'C12'], 'cmdline/dup.c': ['C20'], 'cmdline/touch.c': ['C12'],
     'cmdline/import.c': ['C19'], 'cmdline/search.c': ['C19'], 'cmdline/snapraid.c': ['C14', 'C15', 'C16', 'C12', 'C07', 'C09'],
